@@ -705,29 +705,34 @@ theorem buffered_covers (g g' : GeoBox) (n m xb : Rat) (yb : Option Rat)
       xb - tenth * |rx| ≤ (bx : Rat) * |rx| ∧ ((bx : Rat) - 1) * |rx| < xb - tenth * |rx| ∧
       yb.getD xb - tenth * |ry| ≤ (by_ : Rat) * |ry| ∧
       ((by_ : Rat) - 1) * |ry| < yb.getD xb - tenth * |ry| := by
-  have e : ∀ o : Option Rat, (match o with | none => xb | some v => v) = o.getD xb := by
-    intro o; cases o <;> rfl
-  unfold buffered at h
-  rw [e yb] at h
-  generalize yb.getD xb = ybv at h ⊢
-  unfold bufferedCore at h
-  cases hr : resolution g n m with
-  | error e => simp [hr, bind, Except.bind] at h
-  | ok r =>
-    obtain ⟨rx, ry⟩ := r
-    cases hy : roundToRes ybv ry with
-    | error e => simp [hr, hy, bind, Except.bind] at h
-    | ok by_ =>
-      cases hx : roundToRes xb rx with
-      | error e => simp [hr, hy, hx, bind, Except.bind] at h
-      | ok bx =>
-        simp [hr, hy, hx, bind, Except.bind, pure, Except.pure] at h
-        subst h
-        have sx := round_to_res_spec _ _ _ hx
-        have sy := round_to_res_spec _ _ _ hy
-        refine ⟨rx, ry, bx, by_, rfl, rfl, rfl, rfl, ?_, sx.2.1, sx.2.2, sy.2.1, sy.2.2⟩
-        intro p
-        simp [pix2wld, Aff.apply_mul, Aff.apply_translation, sub_eq_add_neg]
+  have aux : ∀ ybv : Rat, bufferedCore g n m xb ybv = .ok g' →
+      ∃ (rx ry : Rat) (bx by_ : Int), resolution g n m = .ok (rx, ry) ∧
+        g'.ny = g.ny + 2 * by_ ∧ g'.nx = g.nx + 2 * bx ∧ g'.crs = g.crs ∧
+        (∀ p : Pt, pix2wld g' p = pix2wld g (p.1 - bx, p.2 - by_)) ∧
+        xb - tenth * |rx| ≤ (bx : Rat) * |rx| ∧ ((bx : Rat) - 1) * |rx| < xb - tenth * |rx| ∧
+        ybv - tenth * |ry| ≤ (by_ : Rat) * |ry| ∧ ((by_ : Rat) - 1) * |ry| < ybv - tenth * |ry| := by
+    intro ybv h
+    unfold bufferedCore at h
+    cases hr : resolution g n m with
+    | error e => simp [hr, bind, Except.bind] at h
+    | ok r =>
+      obtain ⟨rx, ry⟩ := r
+      cases hy : roundToRes ybv ry with
+      | error e => simp [hr, hy, bind, Except.bind] at h
+      | ok by_ =>
+        cases hx : roundToRes xb rx with
+        | error e => simp [hr, hy, hx, bind, Except.bind] at h
+        | ok bx =>
+          simp [hr, hy, hx, bind, Except.bind, pure, Except.pure] at h
+          subst h
+          have sx := round_to_res_spec _ _ _ hx
+          have sy := round_to_res_spec _ _ _ hy
+          refine ⟨rx, ry, bx, by_, rfl, rfl, rfl, rfl, ?_, sx.2.1, sx.2.2, sy.2.1, sy.2.2⟩
+          intro p
+          simp [pix2wld, Aff.apply_mul, Aff.apply_translation, sub_eq_add_neg]
+  cases yb with
+  | none => exact aux xb h
+  | some v => exact aux v h
 
 /-! ### zoom to a resolution -/
 
@@ -831,7 +836,7 @@ theorem zoom_to_res_error_iff (g : GeoBox) (rx ry : Rat) :
   cases hx : snapGridTight (boundingbox g).left (boundingbox g).right rx tolSnap with
   | error e =>
     have := (hs _ _ _).mp ⟨e, hx⟩
-    simp [bind, Except.bind, this]
+    exact ⟨fun _ => Or.inl this, fun _ => ⟨e, by simp [bind, Except.bind, hx]⟩⟩
   | ok r1 =>
     have hrx : rx ≠ 0 := fun h0 => by
       obtain ⟨e, he⟩ := (hs (boundingbox g).left (boundingbox g).right rx).mpr h0
@@ -839,12 +844,12 @@ theorem zoom_to_res_error_iff (g : GeoBox) (rx ry : Rat) :
     cases hy : snapGridTight (boundingbox g).bottom (boundingbox g).top ry tolSnap with
     | error e =>
       have := (hs _ _ _).mp ⟨e, hy⟩
-      simp [bind, Except.bind, this]
+      exact ⟨fun _ => Or.inr this, fun _ => ⟨e, by simp [bind, Except.bind, hx, hy]⟩⟩
     | ok r2 =>
       have hry : ry ≠ 0 := fun h0 => by
         obtain ⟨e, he⟩ := (hs (boundingbox g).bottom (boundingbox g).top ry).mpr h0
         rw [hy] at he; cases he
-      simp [bind, Except.bind, pure, Except.pure, hrx, hry]
+      simp [bind, Except.bind, pure, Except.pure, hrx, hry, hx, hy]
 
 /-! ## 5. CRS is carried by every view -/
 
